@@ -19,19 +19,19 @@ HasTask(e) == e.ev \in {"submit", "submitret", "taskstart", "taskend"}
 
 \* one left-to-right pass over the history with the sets of submitted / returned / started /
 \* finished tasks; every event is checked against what precedes it
-Monitor(h, nw) ==
+Monitor(h, bound) ==
   LET RECURSIVE F(_, _)
       F(i, m) ==
         IF i > Len(h) THEN m
         ELSE LET e == h[i] IN
           IF e.ev = "submit" THEN
             F(i + 1, [m EXCEPT !.submitted = @ \cup {e.task}, !.once = @ /\ e.task \notin m.submitted,
-                               !.full = @ \/ m.nret - m.nend >= 3 * nw])
+                               !.full = @ \/ (bound >= 0 /\ m.nret - m.nend >= bound)])
           ELSE IF e.ev = "submitret" THEN
-            \* back-pressure: a task whose Submit has returned sits in the queue (2 * workers slots), is in the hands of a
+            \* back-pressure: a task whose Submit has returned sits in the queue (QCap slots), is in the hands of a
             \* worker (one each), or has finished; a Submit beyond that must block until a task finishes
             F(i + 1, [m EXCEPT !.returned = @ \cup {e.task}, !.retok = @ /\ e.task \in m.submitted /\ e.task \notin m.returned,
-                               !.nret = @ + 1, !.bp = @ /\ (m.nret + 1) - m.nend <= 3 * nw])
+                               !.nret = @ + 1, !.bp = @ /\ (bound < 0 \/ (m.nret + 1) - m.nend <= bound)])
           ELSE IF e.ev = "taskstart" THEN
             F(i + 1, [m EXCEPT !.started = @ \cup {e.task}, !.cur = @ + 1, !.maxfl = IF m.cur + 1 > @ THEN m.cur + 1 ELSE @,
                                !.once = @ /\ e.task \in m.submitted /\ e.task \notin m.started])
@@ -51,12 +51,16 @@ Monitor(h, nw) ==
            cur |-> 0, maxfl |-> 0, once |-> TRUE, retok |-> TRUE, barrier |-> TRUE, visible |-> TRUE, waitshape |-> TRUE])
 
 NW(cfg) == IF cfg.W <= 0 THEN 1 ELSE cfg.W
+\* capacity of the pool's task queue: the harness reads it off the real pool object (cap of its channel); 2 * workers in
+\* the pinned code; -1 when it could not be read (then the back-pressure clause does not apply)
+QCap(cfg)  == IF "qcap" \in DOMAIN cfg THEN cfg.qcap ELSE 2 * NW(cfg)
+Bound(cfg) == IF QCap(cfg) < 0 THEN -1 ELSE QCap(cfg) + NW(cfg)
 \* a slice of a longer run on one pool that stays open (no Close / leak probe at its end)
 Open(cfg) == "open" \in DOMAIN cfg /\ cfg.open
 
 Digest(cfg, h) ==
   [h |-> h,
-   m |-> Monitor(h, NW(cfg)),
+   m |-> Monitor(h, Bound(cfg)),
    leaks |-> SelectSeq(h, LAMBDA e : e.ev = "leak"),
    bad   |-> \E k \in 1..Len(h) : h[k].ev \in {"race", "hang", "stuck", "panic"}]
 
